@@ -11,9 +11,11 @@ import (
 	"fmt"
 	"os"
 	"os/exec"
+	"regexp"
 	"runtime"
 	"runtime/pprof"
 	"sort"
+	"strconv"
 	"strings"
 	"sync"
 	"time"
@@ -371,13 +373,35 @@ func Main(id string, scenarios []*Scenario, plan Plan, level string, assumptions
 	if run.Thorough() {
 		maxBound = plan.ThoroughBound
 	}
+	// borrowed phase (ev.RunPart): the borrowing check may cap the bound and select scenarios
+	var onlyRx *regexp.Regexp
+	if os.Getenv("VERIF_AS") != "" {
+		if mb := os.Getenv("VERIF_PART_MAXBOUND"); mb != "" {
+			n, err := strconv.Atoi(mb)
+			if err != nil {
+				ev.Tool("VERIF_PART_MAXBOUND: %v", err)
+			}
+			if n < maxBound {
+				maxBound = n
+			}
+		}
+		if rx := os.Getenv("VERIF_PART_SCENARIOS"); rx != "" {
+			var err error
+			if onlyRx, err = regexp.Compile(rx); err != nil {
+				ev.Tool("VERIF_PART_SCENARIOS: %v", err)
+			}
+		}
+	}
 	var extra ev.Coverage
-	if plan.Before != nil {
+	if plan.Before != nil && os.Getenv("VERIF_PART_SKIP_BEFORE") == "" {
 		extra = plan.Before(run)
 	}
 	var jobs []job
 	for b := 0; b <= maxBound; b++ {
 		for i, sc := range scenarios {
+			if onlyRx != nil && !onlyRx.MatchString(sc.Name) {
+				continue
+			}
 			if sc.MaxBound > 0 && b > sc.MaxBound {
 				continue
 			}
@@ -572,8 +596,8 @@ func replayFile(id string, scenarios []*Scenario, path string) {
 				fmt.Printf("%4d %s\n", i, t)
 			}
 			fmt.Printf("outcome: %s\n", out)
-			if v != nil {
-				fmt.Printf("VIOLATION property=%s replay=%s\n  %s: %s\n", id, path, v.Key, v.Desc)
+			if v != nil && ev.Counts(v.Key) {
+				fmt.Printf("VIOLATION property=%s replay=%s\n  %s: %s\n", ev.As(id), path, v.Key, v.Desc)
 				os.Exit(1)
 			}
 			fmt.Println("replay: property held")
